@@ -114,6 +114,13 @@ def parseXTP (toks : List String) : Option (XTP × List String) :=
     | _, _, _, _, _, _, _, _, _, _, _, _ => none
   | _ => none
 
+/-- A fraction of more than six digits whose discarded tail is exactly one half: the binary value of
+    the implementation's float decides the rounding, so the harness does not compare the dump. -/
+def isTie (d : Option (List Char)) : Bool :=
+  match d with
+  | none => false
+  | some s => s.length > 6 && (s.drop 6).head? == some '5' && ((s.drop 7).all (· = '0'))
+
 def showParsed (r : Option XTP) : String :=
   match r with
   | some p => showXTP p
@@ -147,7 +154,9 @@ def dispatch (toks : List String) : Option String :=
         let r := parse cfg s (asParsed == "1")
         if asParsed == "1" then
           match r with
-          | some p => showXTP p ++ " | " ++ showDump (str cfg.mode p)
+          | some p =>
+            if isTie p.hourDec || isTie p.minuteDec || isTie p.secondDec then showXTP p ++ " | TIE"
+            else showXTP p ++ " | " ++ showDump (str cfg.mode p)
           | none => "err"
         else showParsed r
     | _ => "bad-op"
